@@ -105,12 +105,14 @@ type messageExchange struct {
 	// was notified while recvCh was full. All later frames are refused too,
 	// so that the receiver never sees a frame sequence with a hole in it.
 	frameDropped atomic.Bool
+	cancelNotified atomic.Bool
 }
 
 // checkError is called before waiting on the mex channels.
 // It returns any existing errors (timeout, cancellation, connection errors).
 func (mex *messageExchange) checkError() error {
 	if err := mex.ctx.Err(); err != nil {
+		mex.onCtxErr(err)
 		return GetContextError(err)
 	}
 
@@ -252,6 +254,12 @@ func (mex *messageExchange) recvPeerFrameOfType(msgType messageType) (*Frame, er
 func (mex *messageExchange) onCtxErr(err error) {
 	// On canceled contexts, we may need to send a cancel message.
 	if err != context.Canceled {
+		return
+	}
+
+	// The writer and the reader of a call can both observe the cancellation,
+	// the peer only needs to be told once.
+	if !mex.cancelNotified.CAS(false, true) {
 		return
 	}
 
